@@ -262,6 +262,26 @@ def fn_programs() -> list:
         {"down_a": DEF(["x"], [IF([(CMP(V("x"), ("<=", I(0))), [RETURN(V("x"))])]), RETURN(CALL("down_b", BIN("-", V("x"), I(1))))]),
          "down_b": DEF(["x"], [IF([(CMP(V("x"), ("<=", I(0))), [RETURN(BIN("*", V("x"), I(2)))])]), RETURN(CALL("down_a", BIN("-", V("x"), I(1))))])},
         [WRITE(CALL("down_a", I(2))), WRITE(CALL("down_a", F(2.5))), WRITE(CALL("down_b", F(1.5))), WRITE(CALL("down_b", AREAD())), WRITE(CALL("down_a", BIN("*", AREAD(), F(0.25))))], ain=[3, 7])
+    # an `elif` arm that does nothing still shields the `else` arm behind it (in a helper fed by a loop, and in the main loop)
+    add("fn_empty_elif_before_else",
+        {"band": DEF(["x"], [IF([(CMP(V("x"), (">", I(10))), [WRITE(S("hi"))]), (CMP(V("x"), (">", I(5))), [PASS])], [WRITE(S("lo"))]), RETURN(V("x"))])},
+        [FOR("bi", I(4), [EXPR(CALL("band", BIN("*", V("bi"), I(4))))]), ASSIGN("np", I(0))],
+        loop=[AUG("np", "+", I(1)), IF([(CMP(V("np"), ("==", I(1))), [WRITE(S("first"))]), (CMP(V("np"), ("==", I(2))), [PASS]), (CMP(V("np"), ("==", I(3))), [PASS])], [WRITE(S("later"))])], npass=4)
+    # len() of a list whose length only the device knows, inside larger expressions whose value is negative or is compared with a negative
+    add("fn_len_in_signed_arithmetic",
+        {"short_by": DEF(["xs", "want"], [RETURN(BIN("-", CALL("len", V("xs")), V("want")))])},
+        [ASSIGN("vals", LIST(AREAD(), I(2), I(3))), WRITE(BIN("-", CALL("len", V("vals")), I(5))), WRITE(CMP(CALL("len", V("vals")), (">", I(-1)))),
+         WRITE(CALL("abs", BIN("-", CALL("len", V("vals")), I(7)))), IF([(CMP(BIN("-", CALL("len", V("vals")), I(4)), ("<", I(0))), [WRITE(S("short"))])], [WRITE(S("enough"))]),
+         WRITE(CALL("short_by", V("vals"), I(9))), ASSIGN("sq", COMP("ci", AREAD(), BIN("*", V("ci"), V("ci")))), WRITE(BIN("*", BIN("-", CALL("len", V("sq")), I(6)), I(2))),
+         WRITE(CALL("min", BIN("-", CALL("len", V("sq")), I(6)), I(1)))], ain=[4, 2])
+    # a helper that re-binds a float global (declared `global`) from its int parameter: the global keeps holding floats at file scope
+    add("fn_global_rebound_from_param", {"reset": DEF(["n"], [ASSIGN("level", V("n"))], ["level"])},
+        [ASSIGN("level", F(0.75)), ASSIGN("saved", V("level")), WRITE(V("saved")), ASSIGN("boost", BIN("*", V("level"), I(2))), WRITE(V("boost")),
+         EXPR(CALL("reset", I(3))), WRITE(V("level")), ASSIGN("level", F(2.5)), WRITE(BIN("//", V("level"), I(2)))], lead=1)
+    # call signatures in the order A, B, A (the float sits at another position in B): the third call is call A again
+    add("fn_signature_aba", {"scale": DEF(["v", "k"], [RETURN(BIN("*", V("v"), V("k")))]), "mix": DEF(["a", "b", "c"], [RETURN(BIN("+", BIN("*", V("a"), V("b")), V("c")))])},
+        [WRITE(CALL("scale", I(2), F(0.5))), WRITE(CALL("scale", F(2.5), I(2))), WRITE(CALL("scale", I(2), F(0.5))), WRITE(CALL("scale", I(3), I(2))), WRITE(CALL("scale", F(2.5), I(2))),
+         WRITE(CALL("mix", I(1), F(0.5), I(2))), WRITE(CALL("mix", F(0.5), I(1), I(2))), WRITE(CALL("mix", I(1), I(2), F(0.5))), WRITE(CALL("mix", I(1), F(0.5), I(2))), WRITE(CALL("mix", F(0.5), I(1), I(2)))])
     # annotated parameters: Python does not enforce annotations - the value the call site passes is the value the parameter holds
     add("fn_annotated_param", {"scale": DEF(["raw", "k"], [RETURN(BIN("*", V("raw"), V("k")))], ann={"raw": "int"}),
                                "lbl": DEF(["t", "n"], [RETURN(FSTR("", V("t"), ":", V("n")))], ann={"t": "str", "n": "float"})},
@@ -718,6 +738,17 @@ def scope_fold_snippets() -> list:
                                                  ASSIGN("rf", FSTR("<", V("rv"), ">")), WRITE(CALL("len", V("rf"))), SLEEP(CALL("len", V("rf"))), WRITE(V("rs"))], [512], "fold:derived-str"))
     out.append(snip("fold-derived-str-loopvar", [FOR("dk", I(12), [ASSIGN("ds", BIN("+", S("n"), CALL("str", BIN("*", V("dk"), I(9))))), ASSIGN("dn", CALL("len", V("ds")))]), WRITE(V("dn")), WRITE(V("ds"))], [],
                     "fold:derived-str"))
+    # a loop with a constant count runs at least once, but not necessarily to the end of its body: a re-binding below a taken
+    # `continue` / `break` never happens
+    for n, (jump, taken) in enumerate([(CONTINUE, 1), (BREAK, 1), (CONTINUE, 0), (BREAK, 0)]):
+        tg, nv = f"jt{n}", f"jn{n}"
+        out.append(snip(f"fold-loop-jump-{'continue' if jump is CONTINUE else 'break'}-{'taken' if taken else 'untaken'}",
+                        [ASSIGN(tg, S("xy")), ASSIGN(nv, I(2)), FOR(f"ji{n}", I(3), [IF([(CMP(AREAD(), (">", I(0))), [jump])]), ASSIGN(tg, S("long")), ASSIGN(nv, I(9))]),
+                         SLEEP(V(nv)), WRITE(V(tg)), FOR(f"jk{n}", V(nv), [WRITE(V(f"jk{n}"))]), AWRITE(9, BIN("*", V(nv), I(20)))], [taken, taken, taken], "fold:loop-jump"))
+        # (the same with len() of the string is a trigger of the known finding len-folded-stale: probe stratum)
+        out.append(snip(f"fold-loop-jump-len-{'continue' if jump is CONTINUE else 'break'}-{'taken' if taken else 'untaken'}",
+                        [ASSIGN(tg + "l", S("xy")), FOR(f"jl{n}", I(3), [IF([(CMP(AREAD(), (">", I(0))), [jump])]), ASSIGN(tg + "l", S("long"))]), WRITE(CALL("len", V(tg + "l")))],
+                        [taken, taken, taken], "fold:loop-jump"))
     # name-free comparison chains (foldable at transpile time): each comparison is with the PREVIOUS operand
     chains = [((0, "<", 10, "<", 5), 100, 500), ((0, "<=", 300, "<=", 255), 200, 10), ((3, ">", 1, ">", 2), 7, 8), ((1, "<", 2, "<", 3), 30, 40),
               ((2, "==", 2, "!=", 2), 5, 6), ((5, ">", 4, ">", 4), 11, 12), ((1, "<", 3, ">", 2), 21, 22), ((1, "<", 2, "<", 3, "<", 2), 31, 32)]
